@@ -161,3 +161,51 @@ Print Assumptions C02_reset_prints_default.
 Theorem C02_nonvacuous : fmt17_ok w_fmt17 /\ jv_Forall node_ok (JArr [JDouble w_bits None; JStr [0;47;255]; JObj [([97], JNull)]]).
 Proof. exact nonvacuous. Qed.
 Print Assumptions C02_nonvacuous.
+
+(* ---- 5. the round trip for ALL trees (SerRoundtrip.v: the emitted text is the rendering of a
+   TokSyntax syntax tree whose value is the tree in the parser's normal form; TokValid.parse_valid) ----
+   Guard ([rt_node_ok], at every node): int64 / uint64 in their C ranges; strings and names byte strings;
+   doubles finite, and the strtod oracle reads the emitted token back as the double (for a double
+   without retained text: sb (double_fixup fl (fmt17 bits)) = bits — the %.17g text, NOZERO-trimmed
+   under NOZERO; [guard_of_strtod_ok] derives it from the same hypothesis stated for all doubles);
+   a retained text is an RFC 8259 number token WITH a fraction or an exponent (what the parser
+   retains; an integer-shaped text would come back as an int node) that strtod reads as the double;
+   member names NUL-free and pairwise distinct (a json-c object cannot hold a name twice).
+   For every flag word without COLOR, every depth limit D above the nesting of the tree, default AND
+   strict mode: json-c re-parses its own output completely, the result is [reparsed] (a uint64 that
+   fits int64 comes back as an int64 node, every double comes back with its text retained),
+   json_object_equal to the original, and serializes to the same text. *)
+From JC Require Import SerRoundtrip.
+From JC Require TokModel EqModel.
+
+Theorem C02_roundtrip : forall fmt17 sb, fmt17_ok fmt17 -> forall fl D strictf v t,
+  color fl = false -> jv_Forall (rt_node_ok fmt17 sb fl) v ->
+  Z.of_nat (jv_nest v) < D -> TokModel.tok_new D strictf false false = Some t ->
+  exists t', TokModel.parse_ex_cstr sb t (serialize fmt17 fl 0 v) = TokModel.PR t' (Some (reparsed fmt17 fl v)) /\
+             TokModel.err t' = TokModel.TE_success /\ TokModel.char_offset t' = zlen (serialize fmt17 fl 0 v) /\
+             EqModel.jv_equal v (reparsed fmt17 fl v) = true /\
+             serialize fmt17 fl 0 (reparsed fmt17 fl v) = serialize fmt17 fl 0 v.
+Proof. exact roundtrip_all. Qed.
+Print Assumptions C02_roundtrip.
+
+(* the same in the words of [roundtrip_ok] (json_tokener_new(): depth 32, default mode): the full
+   statement that C02_roundtrip_scalars_partial proves for scalars only *)
+Theorem C02_roundtrip_ok : forall fmt17 sb, fmt17_ok fmt17 -> forall fl v,
+  color fl = false -> jv_Forall (rt_node_ok fmt17 sb fl) v -> Z.of_nat (jv_nest v) < 32 ->
+  roundtrip_ok fmt17 sb fl v.
+Proof. exact roundtrip_ok_all. Qed.
+Print Assumptions C02_roundtrip_ok.
+
+Theorem C02_guard_of_strtod_ok : forall fmt17 sb fl v, strtod_ok fmt17 sb fl ->
+  jv_Forall (fun x => match x with JDouble bits None => dbl_finite bits = true | _ => rt_node_ok fmt17 sb fl x end) v ->
+  jv_Forall (rt_node_ok fmt17 sb fl) v.
+Proof. exact guard_of_strtod_ok. Qed.
+Print Assumptions C02_guard_of_strtod_ok.
+
+(* non-vacuity of the guard: the example tree of section 3 meets it (with and without NOZERO) *)
+Theorem C02_roundtrip_guard_example :
+  jv_Forall (rt_node_ok ex_fmt17 ex_strtod flags_plain) ex_tree /\
+  jv_Forall (rt_node_ok ex_fmt17 ex_strtod (mkfl false false true false false false)) ex_tree /\
+  Z.of_nat (jv_nest ex_tree) < 32.
+Proof. exact ex_tree_guard. Qed.
+Print Assumptions C02_roundtrip_guard_example.
